@@ -2,7 +2,7 @@
    The generic development (bordered pattern, loops of create_kkt_matrix, merge walk, passes) and the mode-specific refresh proof
    (Section IneqCore) live in KKTSparseEqProofs.v; this file instantiates them with XT = GT (eliminated block), RT = AT (border). *)
 From PIQP Require Import Base CSC C14LemmasProofs CSCProofs TransposeProofs LinAlg KKTProofs KKTSparseFull KKTSparseFullProofs
-  KKTSparseFullPermProofs KKTSparseAll KKTSparseAllTrProofs KKTSparseAllProofs KKTSparseEq KKTSparseIneq KKTSparseEqProofs.
+  KKTSparseFullPermProofs KKTSparseAll KKTSparseAllTrProofs KKTSparseAllProofs KKTSparseAllDataProofs KKTSparseEq KKTSparseIneq KKTSparseEqProofs.
 Local Open Scope nat_scope.
 
 (* the reduced operator of KKT_INEQ_ELIMINATED over the L2 system of KKTProofs.v (upper triangle: i <= j) *)
@@ -47,32 +47,43 @@ Qed.
 Theorem ineq_create_thm rho delta : (1 + delta)%Qc <> 0%Qc ->
   exists em, ineq_create d rho delta = Ok em /\
     created_ok (n + p) P AT em (fun i j =>
-      if j <? n then (csc_get P i j + (if i =? j then rho else 0) + csc_get (em_XX em) i j)%Qc
+      if j <? n then (csc_get P i j + (if i =? j then rho else 0)
+                      + sum_n m (fun l => (csc_get GT i l * csc_get GT j l)%Qc) * (1 / (1 + delta)))%Qc
       else if i <? n then csc_get AT i (j - n) else if i =? j then (- delta)%Qc else 0%Qc) /\
     em_tmp em = repeat 0%Qc n.
 Proof.
   intros Hd.
   destruct (ineq_create_ok d Hwf Hsorted GT AT m p HwG HnG HcG HwA HnA HcA HsA eq_refl eq_refl eq_refl rho delta Hd) as (em & E & Hs).
   exists em. split; [exact E|].
-  pose proof Hs as (X0 & cx0 & kx0 & _ & _ & _ & EX0 & CX0 & EXX0 & Lcx0 & Vx0 & _ & _ & _ & _ & Etmp). subst X0.
+  pose proof Hs as (X0 & cx0 & kx0 & _ & _ & _ & EX0 & CX0 & EXX0 & Lcx0 & (_ & cxu & Ecx0 & Vx0) & _ & _ & _ & _ & Etmp). subst X0.
   split; [|exact Etmp].
-  destruct (create_spec_wf d Hwf Hup Hsorted GT AT m p HnG HcG HwA HnA HcA HsA false _ _ em Hs) as (A1 & A2 & A3 & A4 & A5 & A6 & A7 & A8 & A9 & A10 & A11 & A12 & A13 & A14 & X & cx & EX & EXX & Hg).
+  destruct (create_spec_wf d Hwf Hup Hsorted GT AT m p HnG HcG HwA HnA HcA HsA _ _ _ em Hs) as (A1 & A2 & A3 & A4 & A5 & A6 & A7 & A8 & A9 & A10 & A11 & A12 & A13 & A14 & X & cx & EX & EXX & Hg).
   { intros X cx i j L Hj Hij Hno. unfold TLineq0. eapply tlval_out; eauto. }
   unfold created_ok. cbv zeta. repeat (split; [assumption|]).
   intros i j Hij Hj. rewrite Hg by auto. unfold Kgen.
   destruct (Nat.ltb_spec j n) as [Lj|Gj]; [|reflexivity].
-  unfold TLineq0, tlval. now rewrite EXX.
+  unfold TLineq0, tlval. f_equal. rewrite <- EXX, EXX0, Ecx0.
+  apply (XX_get_scaled d GT AT m p HwG HnG HcG HnA HcA (em_X em) cxu _ i j CX0 Vx0 Hij Lj).
 Qed.
 
-(* init (identity ordering) establishes the static invariant (the values it leaves are not characterised here: every later
-   update_scalings starts from the static invariant alone) *)
+(* init (identity ordering) establishes the static invariant ... *)
 Theorem ineq_init_static rho delta : (1 + delta)%Qc <> 0%Qc -> scal_ok d (unit_scal d rho delta) ->
   exists k X, ineq_init d rho delta None = Ok k /\ ineqS d X k /\ ek_sc k = unit_scal d rho delta.
 Proof.
   intros Hd Hsc.
   destruct (ineq_create_ok d Hwf Hsorted GT AT m p HwG HnG HcG HwA HnA HcA HsA eq_refl eq_refl eq_refl rho delta Hd) as (em & E & Hs).
-  destruct (init_from_create d Hwf Hup GT AT m p HnG HcG HwA HnA HcA HsA false _ _ em rho delta Hs Hsc) as (k & X & cx & E2 & Hst & Ec & _).
+  destruct (init_from_create d Hwf Hup GT AT m p HnG HcG HwA HnA HcA HsA false _ _ _ em rho delta Hs Hsc (fun _ _ _ (H : false = true) => False_ind _ (Bool.diff_false_true H))) as (k & X & cx & E2 & Hst & Ec & _).
   exists k, X. unfold ineq_init. rewrite E. cbn [bind]. unfold ineq_N. split; [exact E2|]. split; [exact Hst|exact Ec].
+Qed.
+
+(* ... and leaves the canonical form for the unit scalings (W = I), box terms included *)
+Theorem ineq_init_form rho delta : (1 + delta)%Qc <> 0%Qc -> scal_ok d (unit_scal d rho delta) ->
+  exists k X, ineq_init d rho delta None = Ok k /\ ineqF d X (unit_scal d rho delta) k /\ csc_transpose GT = Ok X.
+Proof.
+  intros Hd Hsc.
+  destruct (ineq_create_ok d Hwf Hsorted GT AT m p HwG HnG HcG HwA HnA HcA HsA eq_refl eq_refl eq_refl rho delta Hd) as (em & E & Hs).
+  destruct (ineq_init_form_core d Hwf Hup GT AT m p HwG HnG HcG HwA HnA HcA HsA eq_refl eq_refl rho delta em Hs Hsc) as (k & X & E2 & Hf & Ecan).
+  exists k, X. unfold ineq_init. rewrite E. cbn [bind]. unfold ineq_N. split; [exact E2|]. split; [exact Hf|exact Ecan].
 Qed.
 
 Theorem ineq_update_scalings_thm X k rho delta s s_lb s_ub z z_lb z_ub zi zlbi zubi :
@@ -88,13 +99,11 @@ Proof.
   split; assumption.
 Qed.
 
-(* update_data(options), non-zero mask without KKT_UPDATE_G: the four refresh calls (incl. update_GT_W_delta_inv_G) *)
-Theorem ineq_update_data_partial X k options : Nat.testbit options 2 = false -> options <> 0 ->
-  ineqS d X k -> scal_ok d (ek_sc k) -> ineq_wnz d (ek_sc k) ->
-  exists k', ineq_update_data d k options = Ok k' /\ ineqF d X (ek_sc k) k'.
+(* the four refresh calls from any state with the static invariant *)
+Theorem ineq_refresh_thm X k : ineqS d X k -> scal_ok d (ek_sc k) -> ineq_wnz d (ek_sc k) ->
+  exists k', ineq_refresh d k = Ok k' /\ ineqF d X (ek_sc k) k'.
 Proof.
-  intros Hb Hnz Hst Hsc Hw. unfold ineq_update_data. rewrite Hb. cbn [bind].
-  destruct (Nat.eqb_spec options 0) as [?Hy|?Hn]; [contradiction|].
+  intros Hst Hsc Hw.
   eapply (ineq_refresh_form d Hwf Hup Hsorted GT AT m p HwG HnG HcG HwA HnA HcA HsA X); eauto. split; assumption.
 Qed.
 
@@ -110,3 +119,111 @@ Proof.
   intros i j Hij Hj. rewrite G4 by auto. now apply Kgen_Kineq.
 Qed.
 End IneqTop.
+
+(* ================================================================ update_data on same-pattern new data *)
+(* INEQ: G changed => KKT_UPDATE_G; anything changed => mask <> 0 *)
+Definition covers_ineq (mask : nat) (d : sdata) (px ax gx lbs ubs : Vec) : Prop :=
+  (Nat.testbit mask 2 = false -> gx = vals (sd_GT d)) /\
+  (mask = 0 -> px = vals (sd_P d) /\ ax = vals (sd_AT d) /\ lbs = sd_lbs d /\ ubs = sd_ubs d).
+
+(* the G branch of update_data: re-transposition of the cached G (the product is recomputed by every refresh) *)
+Lemma ineq_data_G_static d gx X k : elim_data_ok d (sd_AT d) -> ineqS d X k -> length gx = nnz (sd_GT d) ->
+  exists k1 X1,
+    (do G <- transpose_no_alloc (sd_GT (with_GT d gx)) (ek_X k) ;; Ok (ek_set_X k G)) = Ok k1 /\
+    ineqS (with_GT d gx) X1 k1 /\ ek_sc k1 = ek_sc k /\ rowind X1 = rowind X /\ colptr X1 = colptr X.
+Proof.
+  intros Hok Hst Lg. pose proof Hok as (Hwf & _). pose proof Hwf as (_ & _ & _ & _ & _ & _ & HwG & HnG & HcG).
+  pose proof Hst as (cx & EX & CX & EXX & Lcx & Vx & Epinv & Epki & Ekp & Eki & MP & MX & Lr & Hr & Etmp & Lkx).
+  set (GT1 := set_vals (sd_GT d) gx). change (sd_GT (with_GT d gx)) with GT1.
+  assert (HwGT1 : wf_csc GT1 = true) by (apply wf_set_vals; auto).
+  destruct (retranspose_ok (sd_GT d) GT1 X (sd_n d) (sd_m d) CX (same_pat_set_vals _ gx HwG Lg) HwGT1 HnG HcG) as (G' & EG & CG' & Erow & Ecp).
+  rewrite EX, EG. cbn [bind].
+  pose proof (pp_pat X G' (sd_GT d) GT1 Ecp Erow eq_refl eq_refl eq_refl) as Epp.
+  eexists. exists G'. split; [reflexivity|].
+  split; [|split; [destruct k; reflexivity|split; [exact Erow|exact Ecp]]].
+  assert (Ek : ek_set_X k G' = ek_set_XX (ek_set_X k G') (XXof GT1 G' cx) (repeat 0%Qc (sd_n d))).
+  { assert (EXo : XXof GT1 G' cx = XXof (sd_GT d) X cx) by (unfold XXof; now rewrite Epp).
+    rewrite EXo, <- EXX, <- Etmp. destruct k; reflexivity. }
+  rewrite Ek.
+  exact (e_static_recache d (sd_GT d) GT1 (sd_AT d) (sd_m d) (sd_p d) X G' false k cx Ecp Erow eq_refl eq_refl eq_refl Hst CG' Lcx
+           (fun H : false = true => False_ind _ (Bool.diff_false_true H))).
+Qed.
+
+Theorem ineq_update_data_form d X k mask px ax gx lbs ubs :
+  elim_data_ok d (sd_AT d) -> ineqS d X k ->
+  length px = nnz (sd_P d) -> length ax = nnz (sd_AT d) -> length gx = nnz (sd_GT d) ->
+  covers_ineq mask d px ax gx lbs ubs ->
+  let d' := with_all d px ax gx lbs ubs in
+  (mask <> 0 -> scal_ok d' (ek_sc k) /\ ineq_wnz d' (ek_sc k)) ->
+  exists k' X', ineq_update_data d' k mask = Ok k' /\ ineqS d' X' k' /\ ek_sc k' = ek_sc k /\
+    rowind X' = rowind X /\ colptr X' = colptr X /\
+    (mask <> 0 -> ineqF d' X' (ek_sc k) k') /\ (mask = 0 -> k' = k).
+Proof.
+  intros Hok Hst Lp La Lg (C2 & C0) d' Hsc. pose proof Hok as (Hwf & Hup & Hsorted & HsA).
+  unfold d', with_all in *.
+  set (d0 := with_P d px lbs ubs). set (d1 := with_AT d0 ax). set (d2 := with_GT d1 gx).
+  assert (Hok1 : elim_data_ok d1 (sd_AT d1)).
+  { split; [unfold d1, d0; apply wf_with_AT; [apply wf_with_P|]; auto|]. split; [exact Hup|]. split; [exact Hsorted|exact HsA]. }
+  assert (St1 : ineqS d1 X k) by exact Hst.
+  unfold ineq_update_data.
+  assert (S2 : exists k2 X2, (if Nat.testbit mask 2 then do G <- transpose_no_alloc (sd_GT d2) (ek_X k) ;; Ok (ek_set_X k G) else Ok k) = Ok k2 /\
+             ineqS d2 X2 k2 /\ ek_sc k2 = ek_sc k /\ rowind X2 = rowind X /\ colptr X2 = colptr X /\ (Nat.testbit mask 2 = false -> k2 = k)).
+  { destruct (Nat.testbit mask 2) eqn:Eb.
+    - change (sd_GT d2) with (sd_GT (with_GT d1 gx)).
+      destruct (ineq_data_G_static d1 gx X k Hok1 St1 Lg) as (k2 & X2 & E2 & St2 & Sc2 & R1 & R2).
+      exists k2, X2. split; [exact E2|]. split; [exact St2|]. split; [exact Sc2|]. split; [exact R1|]. split; [exact R2|discriminate].
+    - exists k, X. split; [reflexivity|]. split; [|split; [reflexivity|split; [reflexivity|split; [reflexivity|auto]]]].
+      unfold d2. rewrite (C2 eq_refl). change (sd_GT d) with (sd_GT d1). rewrite with_GT_id. exact St1. }
+  destruct S2 as (k2 & X2 & E2 & St2 & Sc2 & R1 & R2 & Id2). rewrite E2. cbn [bind].
+  destruct (Nat.eqb_spec mask 0) as [E0|N0].
+  - exists k2, X2. split; [reflexivity|]. split; [exact St2|]. split; [exact Sc2|]. split; [exact R1|]. split; [exact R2|].
+    split; [intros; contradiction|]. intros _. apply Id2. subst mask. reflexivity.
+  - assert (Hok2 : elim_data_ok d2 (sd_AT d2)).
+    { split; [unfold d2, d1, d0; apply wf_with_GT; [apply wf_with_AT; [apply wf_with_P|]|]; auto|].
+      split; [exact Hup|]. split; [exact Hsorted|exact HsA]. }
+    destruct (Hsc N0) as [Hs1 Hs2].
+    destruct (ineq_refresh_thm d2 Hok2 X2 k2 St2) as (k' & E & Hf); [rewrite Sc2; exact Hs1 | rewrite Sc2; exact Hs2 |].
+    exists k', X2. split; [exact E|]. rewrite Sc2 in Hf. pose proof Hf as (St' & Sc' & _).
+    split; [exact St'|]. split; [exact Sc'|]. split; [exact R1|]. split; [exact R2|]. split; [intros _; exact Hf|intros; contradiction].
+Qed.
+
+Theorem ineq_update_data_scalings_eq_fresh d X k mask px ax gx lbs ubs rho0 delta0 rho delta s s_lb s_ub z z_lb z_ub zi zlbi zubi :
+  elim_data_ok d (sd_AT d) -> ineqS d X k -> canon_cache (sd_GT d) X ->
+  length px = nnz (sd_P d) -> length ax = nnz (sd_AT d) -> length gx = nnz (sd_GT d) ->
+  covers_ineq mask d px ax gx lbs ubs ->
+  let d' := with_all d px ax gx lbs ubs in
+  (mask <> 0 -> scal_ok d' (ek_sc k) /\ ineq_wnz d' (ek_sc k)) ->
+  (1 + delta0)%Qc <> 0%Qc -> scal_ok d' (unit_scal d' rho0 delta0) ->
+  sd_nlb d <= length s_lb -> sd_nlb d <= length z_lb -> sd_nub d <= length s_ub -> sd_nub d <= length z_ub ->
+  vinv z = Ok zi -> vinv (head (sd_nlb d) z_lb) = Ok zlbi -> vinv (head (sd_nub d) z_ub) = Ok zubi ->
+  (forall c0, scal_ok d' (new_scal d' c0 rho delta s s_lb s_ub zi zlbi zubi)) ->
+  (forall l, l < sd_m d -> (nth l s 0 * nth l zi 0 + delta)%Qc <> 0%Qc) ->
+  exists k1 k2 k0 k3 X',
+    ineq_update_data d' k mask = Ok k1 /\ ineq_update_scalings d' k1 rho delta s s_lb s_ub z z_lb z_ub = Ok k2 /\
+    ineq_init d' rho0 delta0 None = Ok k0 /\ ineq_update_scalings d' k0 rho delta s s_lb s_ub z z_lb z_ub = Ok k3 /\
+    ineqF d' X' (new_scal d' (ek_sc k) rho delta s s_lb s_ub zi zlbi zubi) k2 /\ canon_cache (sd_GT d') X' /\
+    ek_kp k2 = ek_kp k3 /\ ek_ki k2 = ek_ki k3 /\ ek_kx k2 = ek_kx k3.
+Proof.
+  intros Hok Hst (Xc & Ecan & Cr & Cc) Lp La Lg Hcov d' Hsc Hd0 Hu0 L1 L2 L3 L4 E1 E2 E3 Hsc2 Hw.
+  pose proof Hok as (Hwf & Hup & Hs & HsA). pose proof Hwf as (_ & _ & _ & _ & _ & _ & HwG & HnG & HcG).
+  destruct (ineq_update_data_form d X k mask px ax gx lbs ubs Hok Hst Lp La Lg Hcov Hsc) as (k1 & X1 & Eu & St1 & Sc1 & R1 & R2 & _ & _).
+  fold d' in Eu, St1.
+  assert (Hok' : elim_data_ok d' (sd_AT d')).
+  { split; [unfold d', with_all; apply wf_with_GT; [apply wf_with_AT; [apply wf_with_P|]|]; auto|]. split; [exact Hup|]. split; [exact Hs|exact HsA]. }
+  assert (Hw' : forall c0, ineq_wnz d' (new_scal d' c0 rho delta s s_lb s_ub zi zlbi zubi)) by (intros c0 l Hl; apply Hw; exact Hl).
+  destruct (ineq_update_scalings_thm d' Hok' X1 k1 rho delta s s_lb s_ub z z_lb z_ub zi zlbi zubi St1 L1 L2 L3 L4 E1 E2 E3 (Hsc2 _) (Hw' _)) as (k2 & Es2 & Hf2).
+  destruct (ineq_init_form d' Hok' rho0 delta0 Hd0 Hu0) as (k0 & X0 & E0 & Hf0 & Ecan0).
+  pose proof Hf0 as (St0 & _).
+  destruct (ineq_update_scalings_thm d' Hok' X0 k0 rho delta s s_lb s_ub z z_lb z_ub zi zlbi zubi St0 L1 L2 L3 L4 E1 E2 E3 (Hsc2 _) (Hw' _)) as (k3 & Es3 & Hf3).
+  destruct (csc_transpose_pat (sd_GT d) (sd_GT d') Xc (sd_n d) (sd_m d) HwG (wf_set_vals _ gx HwG Lg) (same_pat_set_vals _ gx HwG Lg) HnG HcG Ecan)
+    as (X0' & E0' & B1 & B2).
+  rewrite Ecan0 in E0'. injection E0' as <-.
+  exists k1, k2, k0, k3, X1. split; [exact Eu|]. split; [exact Es2|]. split; [exact E0|]. split; [exact Es3|].
+  rewrite Sc1 in Hf2. split; [exact Hf2|].
+  split; [exists X0; split; [exact Ecan0|split; congruence]|].
+  apply (e_form_matrix_eq d' (sd_GT d') (sd_AT d') (sd_m d') (sd_p d') X0 X1 false false _ _ _ _ _ _ k3 k2 Hf3 Hf2); try congruence.
+  intros i j. destruct (vinv_ok _ _ E2) as [Lz2 _]. destruct (vinv_ok _ _ E3) as [Lz3 _].
+  rewrite head_length in Lz2 by auto. rewrite head_length in Lz3 by auto.
+  unfold Kgen, TLineq, TLgen, Dineq, wtI.
+  rewrite (bdiag_new_scal d' (ek_sc k0) (ek_sc k) rho delta s s_lb s_ub zi zlbi zubi i L1 L3 Lz2 Lz3). reflexivity.
+Qed.
